@@ -53,7 +53,7 @@ var (
 	res  *vh.Result
 )
 
-const callDeadline = 3 * time.Second
+const callDeadline = 8 * time.Second // generous: a loaded machine must not turn a slow call into a "hang"
 
 // ---------------------------------------------------------------------------------------------
 // guarded calls
